@@ -380,6 +380,51 @@ pub fn c11_large(g: &mut Gen, out: &mut Sink, thorough: bool) {
     }
 }
 
+/// payloads around and above one kilobyte through `to_writer` (buffering or staging layers in
+/// front of the writer change behaviour at such sizes): whole encoding, and a stop at several offsets
+pub fn c12_large(g: &mut Gen, out: &mut Sink, thorough: bool) {
+    fn one<T: Full>(v: T, g: &mut Gen, out: &mut Sink, thorough: bool) {
+        let ty = T::ty();
+        let vs = val_of(&v);
+        let Some(full) = enc_obs(&v).1 else { return };
+        let len = full.len();
+        let sc = Script { chunks: gen_chunks(g, len), intr: gen_intr(g, len), stop: Stop::None };
+        let case = format!("encW {} {} {}", ty, vs, sc.sexp());
+        let (st, del) = run_writer(&sc, &v);
+        out.case(&case, &format!("{} delivered={}", st, hex(&del)));
+        out.oracle("C12", st == "ok" && del == full, &case,
+                   &format!("{}: {} bytes delivered, differs from the {}-byte encoding (first difference at {})", st, del.len(), len,
+                            del.iter().zip(full.iter()).position(|(a, b)| a != b).unwrap_or(del.len().min(len))));
+        let mut ks = vec![0usize, 1, 3, 4, 5, len / 2, len - 1];
+        for _ in 0..(if thorough { 8 } else { 2 }) {
+            ks.push(g.below(len as u64) as usize);
+        }
+        for k in ks {
+            let stop = if g.chance(1, 3) { Stop::Zero(k) } else { Stop::Fail(k, g.pick(&KINDS).0, g.below(1000) as u32) };
+            let sc = Script { chunks: gen_chunks(g, len), intr: gen_intr(g, len), stop: stop.clone() };
+            let case = format!("encW {} {} {}", ty, vs, sc.sexp());
+            let (st, del) = run_writer(&sc, &v);
+            out.case(&case, &format!("{} delivered={}", st, hex(&del)));
+            let want = match stop {
+                Stop::Zero(_) => "err writeZero writeZeroMsg".to_string(),
+                Stop::Fail(_, code, id) => format!("err {} {}", kind_sexp(code), script_msg(code, id)),
+                Stop::None => unreachable!(),
+            };
+            out.oracle("C12", st == want && del == full[..k], &case,
+                       &format!("{} with {} bytes delivered (want {} and the first {} bytes of the encoding)", st, del.len(), want, k));
+        }
+    }
+    let bytes = |g: &mut Gen, n: usize| -> Vec<u8> { (0..n).map(|i| (i as u8).wrapping_mul(13).wrapping_add(g.below(3) as u8)).collect() };
+    for n in [1023usize, 1024, 1025, 2048, 4100] {
+        one::<Vec<u8>>(bytes(g, n), g, out, thorough);
+    }
+    one::<String>("é".repeat(600), g, out, thorough);
+    one::<(u8, Vec<u8>)>((7, bytes(g, 1500)), g, out, thorough);
+    one::<(String, u32, Vec<u8>)>(("head".into(), 9, bytes(g, 1024)), g, out, thorough);
+    one::<Vec<Vec<u8>>>(vec![bytes(g, 3), bytes(g, 1200), bytes(g, 2)], g, out, thorough);
+    one::<Option<Box<[u8]>>>(Some(bytes(g, 1030).into_boxed_slice()), g, out, thorough);
+}
+
 pub fn run_writer<T: Full>(sc: &Script, v: &T) -> (String, Vec<u8>) {
     let mut w = ScriptWriter { sc: sc.clone(), delivered: Vec::new() };
     let res = guarded(|| borsh::to_writer(&mut w, v));
